@@ -573,6 +573,9 @@ func drive(resolvedPath, oraclePath, workRoot string, workers int) {
 	}
 	close(idx)
 	wg.Wait()
+	if len(results) > 0 {
+		results[0].oracle = append(results[0].oracle, tagBurst(workers)...)
+	}
 	out := bufio.NewWriterSize(os.Stdout, 1<<20)
 	defer out.Flush()
 	rf, err := os.Create(resolvedPath)
@@ -594,6 +597,72 @@ func drive(resolvedPath, oraclePath, workRoot string, workers int) {
 			fmt.Fprintln(ow, l)
 		}
 	}
+}
+
+// tagBurst: sandboxes of one pipeline start at the same time - many goroutines build start-up scripts at once.
+// No build may panic and no two scripts may carry the same here-document tag (defect 27, §4: the shared random
+// source of varutil.RandString was read without a lock).
+func tagBurst(workers int) (fails []string) {
+	const per = 1500
+	const caseLine = "case container 656e76202d300a 41=31"
+	tags := make([][]string, workers)
+	panics := make([]int, workers)
+	var wg sync.WaitGroup
+	for i := 0; i < workers; i++ {
+		wg.Add(1)
+		go func(i int) {
+			defer wg.Done()
+			for k := 0; k < per; k++ {
+				var script []byte
+				p, _ := hx.Guard(func() {
+					e := envs.NewEnvironments()
+					e.Set("A", "1")
+					var rd io.Reader
+					var err error
+					if k%2 == 0 {
+						rd, err = dcmd.InitSequence(e)
+					} else {
+						rd, err = sshsb.VerifInitSequence("env -0", e)
+					}
+					if err == nil {
+						script, _ = io.ReadAll(rd)
+					}
+				})
+				if p {
+					panics[i]++
+					continue
+				}
+				if m := tagRe.FindSubmatch(script); m != nil {
+					tags[i] = append(tags[i], string(m[1]))
+				}
+			}
+		}(i)
+	}
+	wg.Wait()
+	seen := map[string]bool{}
+	dups, np, n := 0, 0, 0
+	first := ""
+	for i := range tags {
+		np += panics[i]
+		for _, t := range tags[i] {
+			n++
+			if seen[t] {
+				dups++
+				if first == "" {
+					first = t
+				}
+			}
+			seen[t] = true
+		}
+	}
+	if np > 0 {
+		fails = append(fails, fmt.Sprintf("FAIL tagfresh %s %d of %d start-up scripts built by %d goroutines at the same time panicked in the builder", caseLine, np, workers*per, workers))
+	}
+	if dups > 0 {
+		fails = append(fails, fmt.Sprintf("FAIL tagfresh %s %d of %d start-up scripts built by %d goroutines at the same time carry a here-document tag another one carries too (e.g. %s)", caseLine, dups, n, workers, first))
+	}
+	fails = append(fails, fmt.Sprintf("INFO tagburst scripts=%d goroutines=%d panics=%d duplicate_tags=%d", workers*per, workers, np, dups))
+	return fails
 }
 
 func handle(w *worker, line string) (r result) {
